@@ -107,6 +107,11 @@ impl<X> AsRef<OwnG<X>> for OwnG<X> { fn as_ref(&self) -> &OwnG<X> { self.tw() } 
 impl<X> AsMut<OwnG<X>> for OwnG<X> { fn as_mut(&mut self) -> &mut OwnG<X> { self.tw_mut() } }
 impl AsRef<[A]> for OwnG<[u8; 2]> { fn as_ref(&self) -> &[A] { &self.tw().v[..] } }
 impl AsMut<[A]> for OwnG<[u8; 2]> { fn as_mut(&mut self) -> &mut [A] { &mut self.tw_mut().v[..] } }
+/// a generic type that is *not* `Deref` itself, behind a reference (`#[deref(forward)]` over `&'a Plain<T>` needs the bound on
+/// the reference type, not on what it points to)
+#[derive(Debug, Clone, PartialEq)]
+pub struct Plain<T> { pub id: u32, pub v: Vec<T> }
+pub fn lkp(id: u32) -> &'static Plain<C> { Box::leak(Box::new(Plain { id, v: vec![C(id + 1)] })) }
 pub type OwnA = Own<A>;
 pub type OwnB = Own<B>;
 pub type VecA = Vec<A>;
@@ -155,7 +160,7 @@ struct Ty {
     foreign: &'static [(&'static str, &'static str)],
 }
 
-const TYS: [Ty; 15] = [
+const TYS: [Ty; 16] = [
     Ty { decl: "Own<A>", inst: "Own<A>", caps: 15, gen: 0, catch_all: false, elem: "A", selfs: &[("Own<A>", true), ("OwnA", true), ("crate::Own<A>", true)], foreign: &[("[A]", "[A]"), ("Vec<A>", "Vec<A>")] },
     Ty { decl: "Own<B>", inst: "Own<B>", caps: 15, gen: 0, catch_all: false, elem: "B", selfs: &[("Own<B>", true), ("OwnB", true), ("crate::Own<B>", true)], foreign: &[("[B]", "[B]"), ("Vec<B>", "Vec<B>")] },
     Ty { decl: "Vec<A>", inst: "Vec<A>", caps: 15, gen: 0, catch_all: false, elem: "A", selfs: &[("Vec<A>", true), ("VecA", true), ("std::vec::Vec<A>", true)], foreign: &[("[A]", "[A]")] },
@@ -176,8 +181,11 @@ const TYS: [Ty; 15] = [
     Ty { decl: "OwnN<N>", inst: "OwnN<2>", caps: 8, gen: 16, catch_all: false, elem: "", selfs: &[("OwnN<N>", true), ("OwnN<N>", true), ("crate::OwnN<N>", false), ("OwnN<{ N }>", false)], foreign: &[("[A]", "[A]")] },
     // 13: deref_mut.md: forwarding "for when the field itself is a reference type like `&mut` and `Box`"
     Ty { decl: "&'a mut Own<A>", inst: "&'static mut Own<A>", caps: 1, gen: 8, catch_all: false, elem: "A", selfs: &[], foreign: &[] },
+    // 15: a reference to a generic type that has no `Deref` of its own (forwarding goes through `&'a Plain<T>: Deref`)
+    // (listed after 14 below)
     // 14: the const parameter occurs only as an array length inside a type argument (expression position)
     Ty { decl: "OwnG<[u8; N]>", inst: "OwnG<[u8; 2]>", caps: 8, gen: 16, catch_all: false, elem: "", selfs: &[("OwnG<[u8; N]>", true), ("OwnG<[u8; N]>", true), ("crate::OwnG<[u8; N]>", false)], foreign: &[("[A]", "[A]")] },
+    Ty { decl: "&'a Plain<T>", inst: "&'static Plain<C>", caps: 1, gen: 9, catch_all: false, elem: "C", selfs: &[], foreign: &[] },
 ];
 const TY_MUT_REF: usize = 13;
 const TY_ASSOC_SHORTHAND: usize = 9;
@@ -191,6 +199,7 @@ fn value_of(ty: usize, k: usize) -> String {
         11 => format!("OwnL::new({b})"),
         12 => format!("OwnN::new({b})"),
         14 => format!("OwnG::new({b})"),
+        15 => format!("lkp({b})"),
         13 => format!("lko_mut({b})"),
         2 => elems,
         4 => format!("Box::new(Own::new({b}, {elems}))"),
@@ -207,6 +216,7 @@ fn write_probe(ty: usize, f: &str) -> (String, String) {
         2 => ("r.push(A(4242));".into(), format!("s.{f}.last() == Some(&A(4242))")),
         5 => ("*r = 4242;".into(), format!("s.{f} == 4242")),
         7 => ("*r = lko(4242);".into(), format!("s.{f}.id == 4242")),
+        15 => ("*r = lkp(4242);".into(), format!("s.{f}.id == 4242")),
         _ => ("r.push_str(\"4242\");".into(), format!("s.{f}.ends_with(\"4242\")")),
     }
 }
@@ -285,7 +295,7 @@ fn gen_legacy(d: &mut Dice, tys: &[usize], cap: u8, can_forward: bool, is_iter: 
     let at_struct = if is_iter { nf == 1 && !kinds.is_empty() && d.chance(50) } else { forward && (nf == 1 || !mark) && d.chance(50) };
     let bare = nf == 1 && !at_struct && d.chance(30);
     // `&T` has no DerefMut of its own, so a forwarded DerefMut cannot be asked for there
-    let with_mut = d.chance(70) && !(forward && tys[sel] == 7);
+    let with_mut = d.chance(70) && !(forward && (tys[sel] == 7 || tys[sel] == 15));
     Some(Legacy { sel, mark, forward, at_struct, bare, with_mut, kinds })
 }
 
@@ -403,7 +413,7 @@ fn gen_model(d: &mut Dice) -> Model {
         if k > 0 && d.chance(65) {
             tys.push(tys[k - 1]);
         } else {
-            tys.push(d.weighted(&[8, 3, 6, 4, 3, 1, 1, 2, 2, 2, 1, 2, 2, 1, 2]));
+            tys.push(d.weighted(&[8, 3, 6, 4, 3, 1, 1, 2, 2, 2, 1, 2, 2, 1, 2, 2]));
         }
     }
     let names: Vec<String> = (0..nf).map(|k| if named { NAMES[k].to_string() } else { k.to_string() }).collect();
@@ -898,6 +908,7 @@ fn render(m: &Model) -> GenCase {
             12 => labels.push("selected_const_generic_field".into()),
             14 => labels.push("selected_field_with_const_as_array_length".into()),
             13 => labels.push("selected_mut_ref_field".into()),
+            15 => labels.push("selected_ref_to_generic_non_deref_field".into()),
             _ => {}
         }
     }
